@@ -186,12 +186,15 @@ theorem importStmt_spec (n : Nat) {s0 : PState} (h : InvB 2 c s0) :
 include hl
 
 omit T in
-theorem decodeLit_spec {s0 s : PState} {δ : Nat} {F : Prop} (sp : Span) (hi : InvB 2 c s) (hsp : SpanOk c.src sp)
-    (hm : μ s + δ ≤ μ s0) (hn : nsz s0 ≤ nsz s) : SpecR c F (Post c s0 δ Vid) (decodeLit c sp s) := by
+theorem decodeLit_spec {s0 s : PState} {δ : Nat} {F : Prop} (k : TokKind) (sp : Span) (hi : InvB 2 c s)
+    (hsp : SpanOk c.src sp) (hm : μ s + δ ≤ μ s0) (hn : nsz s0 ≤ nsz s) :
+    SpecR c F (Post c s0 δ Vid) (decodeLit c k sp s) := by
   unfold decodeLit
   split
-  · rename_i k esp he
-    pfail hi, (hl _ _ _ _ _ he)
+  · rename_i ek esp he
+    split
+    · pfail hi, (hl _ _ _ _ _ he)
+    · pfail hi, hsp
   · exact addNode_ok _ _ hi hsp hm hn
 
 theorem ipAddress_spec {s0 : PState} (h : InvB 2 c s0) :
@@ -200,7 +203,7 @@ theorem ipAddress_spec {s0 : PState} (h : InvB 2 c s0) :
   pb pnext_spec T h (by omega)
   intro r s ⟨hi, hm, hn, hsp, _⟩
   split
-  · exact decodeLit_spec hl _ hi hsp hm hn
+  · exact decodeLit_spec hl _ _ hi hsp hm hn
   · pfail hi, hsp
 
 omit T hl in
@@ -247,7 +250,7 @@ theorem simpleLiteral_spec {s0 : PState} (h : InvB 2 c s0) :
     dsimp only
     split
     · exact addNode_ok _ _ hi hsp hm hn
-    · exact decodeLit_spec hl _ hi hsp hm hn
+    · exact decodeLit_spec hl _ _ hi hsp hm hn
   · pfail hi, hsp
 
 theorem literal_spec {s0 : PState} (h : InvB 2 c s0) :
